@@ -6,7 +6,7 @@ import XlVerif.Lemmas.C11Names
 import XlVerif.Lemmas.C11Text
 namespace XlVerif.Lemmas.C11
 open XlVerif XlVerif.Model.C11
-open XlVerif.Spec.C11 (Text Coord SCell Sheet Workbook Target colName digits coordText)
+open XlVerif.Spec.C11 (Text Coord SCell Sheet Workbook Target colName digits coordText refText)
 
 theorem coordText_injective {c1 c2 : Coord} (h : coordText c1 = coordText c2) : c1 = c2 := by
   have h1 := boundary_bare c1
@@ -94,12 +94,12 @@ theorem nodup_keys (wb : Workbook) (ig : List Text) (hs : (wb.sheets.map (·.nam
 
 /-! ### the guard of `names_bound_spec_partial` -/
 
-/-- Targets inside the domain of `names_bound_spec_partial`: the sheet name is non-empty, has none of
-    `$ ! :`, no blank at either end, does not begin with an apostrophe, and the corners are real
-    coordinates.  (Apostrophes *inside* the name are fine since the repair of D1101.) -/
+/-- Targets inside the domain of `names_bound_spec_partial`: the sheet name is non-empty, has no blank at
+    either end, does not begin with an apostrophe, has no `:` (Excel forbids it) and no `,` (the model does
+    not follow `resolve_ranges` through its `split(',')`), and the corners are real coordinates.
+    `$`, `!` and apostrophes inside the name are fine (repairs D0302, D1102, D1101). -/
 def GoodTarget (t : Target) : Prop :=
-  t.sheet ≠ [] ∧ '$' ∉ t.sheet ∧ '!' ∉ t.sheet ∧ ':' ∉ t.sheet ∧ t.sheet.head? ≠ some '\'' ∧
-  strip t.sheet = t.sheet ∧
+  t.sheet ≠ [] ∧ ':' ∉ t.sheet ∧ ',' ∉ t.sheet ∧ t.sheet.head? ≠ some '\'' ∧ strip t.sheet = t.sheet ∧
   1 ≤ t.c1.col ∧ 1 ≤ t.c1.row ∧ (∀ p, t.snd = some p → 1 ≤ p.2.1.col ∧ 1 ≤ p.2.1.row)
 
 instance (t : Target) : Decidable (GoodTarget t) := by
@@ -116,25 +116,87 @@ instance (t : Target) : Decidable (GoodTarget t) := by
 /-- The address `build_defined_names` computes is the statement's address of the target. -/
 theorem normAddress_good (t : Target) (hg : GoodTarget t) :
     normAddress (Model.C11.Target.text t) = Spec.C11.Target.address t := by
-  obtain ⟨hne, hd, hb, _, ha, hst, _⟩ := hg
-  rw [normAddress_target t hne hd hb (fun _ => ⟨ha, hst⟩)]
+  obtain ⟨hne, _, _, ha, hst, _⟩ := hg
+  rw [normAddress_target t hne (fun _ => ⟨ha, hst⟩)]
   unfold restText Spec.C11.Target.address Spec.C11.addr
   rcases t.snd with _ | ⟨a, c2, b⟩
   · simp [bare_eq_coordText]
   · simp [bare_eq_coordText, List.append_assoc]
 
-theorem targetText_ne_ref (t : Target) (hd : '$' ∉ t.sheet) : Model.C11.Target.text t ≠ "#REF!".toList := by
+theorem targetText_ne_ref (t : Target) : Model.C11.Target.text t ≠ "#REF!".toList := by
   intro e
-  have h1 := filter_target t hd
-  rw [e] at h1
-  have h2 : rsplit1 '!' (sheetPart t ++ '!' :: restText t) = (sheetPart t, restText t) :=
-    rsplit1_of _ _ _ (restText_no_bang t)
-  rw [← h1] at h2
-  have h3 : rsplit1 '!' (("#REF!".toList).filter (· ≠ '$')) = ("#REF".toList, []) := by decide
+  have h2 : rsplit1 '!' (sheetPart t ++ '!' :: refsText t) = (sheetPart t, refsText t) :=
+    rsplit1_of _ _ _ (refsText_no_bang t)
+  rw [← target_text_eq', e] at h2
+  have h3 : rsplit1 '!' "#REF!".toList = ("#REF".toList, []) := by decide
   rw [h3] at h2
-  have h4 : restText t = [] := (Prod.mk.inj h2).2.symm
-  unfold restText bare at h4
+  have h4 : refsText t = [] := (Prod.mk.inj h2).2.symm
+  unfold refsText refText at h4
   have h5 := (List.append_eq_nil_iff.mp h4).1
   exact digits_ne_nil t.c1.row (List.append_eq_nil_iff.mp h5).2
+
+/-! ### `link_cells_to_defined_names` does not raise when no area name is empty -/
+
+theorem mem_dset {α} (d : Dict α) (k : Text) (v : α) (e : Text × α) (h : e ∈ dset d k v) :
+    e ∈ d ∨ e = (k, v) := by
+  induction d with
+  | nil => simp [dset] at h; exact Or.inr h
+  | cons x d ih =>
+    obtain ⟨k0, v0⟩ := x
+    unfold dset at h
+    split at h
+    · rcases List.mem_cons.mp h with h | h
+      · exact Or.inr h
+      · exact Or.inl (List.mem_cons_of_mem _ h)
+    · rcases List.mem_cons.mp h with h | h
+      · exact Or.inl (h ▸ List.mem_cons_self)
+      · rcases ih h with h | h
+        · exact Or.inl (List.mem_cons_of_mem _ h)
+        · exact Or.inr h
+
+/-- no area among the names of `m` is without rows. -/
+def NoEmptyArea (m : M) : Prop := ∀ k r, (k, Defn.range r) ∈ m.names → r.cells ≠ []
+
+theorem defineName_noEmptyArea (m : M) (n t : Text) (h : NoEmptyArea m)
+    (ht : (normAddress t).contains ':' = true → (mkRange (normAddress t) n).cells ≠ []) :
+    NoEmptyArea (defineName m n t) := by
+  intro k r hk
+  unfold defineName at hk
+  simp only at hk
+  split at hk
+  · split at hk
+    · exact h k r hk
+    · rw [linkFormula_names] at hk
+      rcases mem_dset _ _ _ _ hk with hk | hk
+      · exact h k r hk
+      · cases hk
+  · rename_i hc
+    rw [linkFormula_names] at hk
+    rcases mem_dset _ _ _ _ hk with hk | hk
+    · exact h k r hk
+    · injection hk with _ h2; injection h2 with h2
+      rw [h2]; exact ht (by simpa using hc)
+
+theorem buildDefinedNames_noEmptyArea (defs : List (Text × Text)) (m : M) (h : NoEmptyArea m)
+    (ht : ∀ d ∈ defs, (normAddress d.2).contains ':' = true → (mkRange (normAddress d.2) d.1).cells ≠ []) :
+    NoEmptyArea (buildDefinedNames m defs) := by
+  unfold buildDefinedNames
+  induction defs generalizing m with
+  | nil => exact h
+  | cons d defs ih =>
+    simp only [List.foldl_cons]
+    exact ih _ (defineName_noEmptyArea m d.1 d.2 h (ht d List.mem_cons_self))
+      (fun e he => ht e (List.mem_cons_of_mem _ he))
+
+theorem emptyRangeCrash_false_of (m : M) (h : NoEmptyArea m) : emptyRangeCrash m = false := by
+  unfold emptyRangeCrash
+  cases hc : m.names.any _ with
+  | false => rfl
+  | true =>
+    exfalso
+    obtain ⟨⟨k, d⟩, hm, hd⟩ := List.any_eq_true.mp hc
+    cases d with
+    | cell a => simp at hd
+    | range r => exact h k r hm (by simpa using hd)
 
 end XlVerif.Lemmas.C11
